@@ -916,6 +916,9 @@ void remove_duplicates_helper(COOMatrix* A, std::vector<T>& vals)
     }
 
     A->nnz = ctr;
+    A->idx1.resize(ctr);
+    A->idx2.resize(ctr);
+    vals.resize(ctr);
 }
 
 template <typename T>
